@@ -31,10 +31,10 @@ func verifC03Reconstruct() {
 
 	free := vOuterPool(nOuter)
 	outer := vHello{version: 0x0303, random: vBytes(32), sid: vBytes(2 * vInt(0, 1)), suites: []byte{0x13, 0x01}, comp: []byte{0}}
-	outer.exts = append(outer.exts, vSNI(name), vVersions(0x0304))
-	echPos := 2 + vInt(0, nOuter) // ECH somewhere among / after the free extensions
+	outer.exts = append(outer.exts, vSNI(name), vVersions(0x0304), vALPN([][]byte{[]byte("h2"), []byte("http/1.1")}))
+	echPos := 3 + vInt(0, nOuter) // ECH somewhere among / after the free extensions
 	for i := 0; i <= nOuter; i++ {
-		if 2+i == echPos {
+		if 3+i == echPos {
 			outer.exts = append(outer.exts, vExt{0xfe0d, nil})
 		}
 		if i < nOuter {
@@ -45,7 +45,14 @@ func verifC03Reconstruct() {
 	// inner extension list
 	innerName := vBytes(3)
 	proto := vBytes(2)
-	base := []vExt{vSNI(innerName), vECHInner(), vALPN([][]byte{proto}), vVersions(0x0304), {0x002d, vBytes(1)}}
+	hasSNI, hasALPN := vBool(), vBool() // the inner hello may lack a server name / ALPN of its own
+	base := []vExt{vECHInner(), vVersions(0x0304), {0x002d, vBytes(1)}}
+	if hasALPN {
+		base = append([]vExt{vALPN([][]byte{proto})}, base...)
+	}
+	if hasSNI {
+		base = append([]vExt{vSNI(innerName)}, base...)
+	}
 	var refTypes []uint16 // referenced outer extension types, in outer order
 	var refExts []vExt
 	useMarker := nOuter > 0 && vBool()
@@ -91,9 +98,17 @@ func verifC03Reconstruct() {
 	vAssert(len(got) == 5+len(wantMsg), "first record has the expected size")
 	vAssert(got[0] == 22 && int(got[3])<<8|int(got[4]) == len(wantMsg), "record header frames the inner hello")
 	vAssert(vBytesEq(got[5:], wantMsg), "reconstructed inner hello is byte-exact")
-	vAssert(vBytesEq([]byte(c.ServerName()), innerName), "ServerName is the inner SNI")
+	if hasSNI {
+		vAssert(vBytesEq([]byte(c.ServerName()), innerName), "ServerName is the inner SNI")
+	} else {
+		vAssert(c.ServerName() == "", "no inner SNI: ServerName is empty (never the outer name)")
+	}
 	al := c.ALPNProtos()
-	vAssert(len(al) == 1 && vBytesEq([]byte(al[0]), proto), "ALPNProtos is the inner ALPN list")
+	if hasALPN {
+		vAssert(len(al) == 1 && vBytesEq([]byte(al[0]), proto), "ALPNProtos is the inner ALPN list")
+	} else {
+		vAssert(len(al) == 0, "no inner ALPN: ALPNProtos is empty (never the outer list)")
+	}
 	vObserve(len(got), c.ECHAccepted())
 	vReach("checked")
 }
